@@ -331,17 +331,24 @@ def generate(seed, tier='quick'):
             if c < 0.3:
                 spec = {'status': rng.choice([200, 204, 200]),
                         'reply_header': rng.choice([
-                            None, '250; message="2.6.0 ok"', 'garbled'])}
+                            None, '250; message="2.6.0 ok"', 'garbled',
+                            '250; message="2.6.0 ok"; command="DATA"'])}
             elif c < 0.55:
                 code = rng.choice(['450', '550', '451', '554', '535'])
                 spec = {'status': rng.choice([400, 500, 503, 401]),
                         'reply_header': '%s; message="%s.1.1 scripted"' % (
                             code, code[0])}
+                if rng.random() < 0.3:
+                    # the library's own HTTP edge names the failed command
+                    spec['reply_header'] += '; command="%s"' % rng.choice(
+                        ['RCPT', 'DATA', 'MAIL'])
                 expect = {'whole': 'perm' if code[0] == '5' else 'temp'}
                 b = code[0] + 'xx'
             elif c < 0.75:
                 spec = {'status': rng.choice([400, 404, 500, 503]),
-                        'reply_header': rng.choice([None, 'garbled', ''])}
+                        'reply_header': rng.choice([
+                            None, 'garbled', '', '999; message="bad code"',
+                            '099; message="bad code"', '25; message="x"'])}
                 expect = {'whole': 'fail'}      # class not judged (no header)
                 b = 'no-header'
             else:
